@@ -332,6 +332,15 @@ def api_mix(tier, k, free=False):
               fine_reg=("reg" in c))       # run-time registration needs the finer park points to be matched
 
 
+def api_read(tier, free=False):
+    """readers of state and metrics while producers are blocked on the full queue and the store is stopped:
+    reading never waits for anything a blocked dispatcher holds"""
+    rd = [O("get_state"), O("get_state")] if free else [O("get_state"), O("metrics"), O("get_state")]
+    progs = [{"c1": [D(1, "impl"), D(2, "trait"), D(3, "store")], "c2": rd, "c3": [dict(O("stop"), via="store")]}]
+    return _i("api_read", progs, {1: 0, 2: 1, 3: 0}, cap=1, pol="block",
+              red_script={"r1": {0: red("D"), 1: red("D", eff("task"))}}, max_tasks=1)
+
+
 # ---- heavier instances: model checking only (thorough tier), 10^6 .. 10^7 states
 
 def disp_heavy(pol="block", cap=1):
@@ -558,10 +567,10 @@ def table(pid, tier):
                  free=[(i, 100 if q else 1000) for i in insts[:2]])
     elif pid == "C13":
         ks = [1, 2, 10, 23] if q else list(range(33))
-        insts = [api_mix(tier, k) for k in ks]
+        insts = [api_mix(tier, k) for k in ks] + [api_read(tier)]
         inv = ["C13_NoDeadlock"]
-        T = dict(mc=[(i, inv, []) for i in insts], gen=[(i, 500 if q else 2500) for i in insts[:3 if q else 8]],
-                 free=[(api_mix(tier, k, free=True), 40 if q else 100) for k in ks],
+        T = dict(mc=[(i, inv, []) for i in insts], gen=[(i, 400 if q else 2500) for i in (insts[:3] + insts[-1:] if q else insts[:8] + insts[-1:])],
+                 free=[(api_mix(tier, k, free=True), 40 if q else 100) for k in ks] + [(api_read(tier, free=True), 40 if q else 100)],
                  live=[(i, ["Live_ClientsDone", "Live_StopReturns"]) for i in (insts[1:3] if q else insts[:6])])
     elif pid == "C14":
         insts = [iterator(tier, False), iterator(tier, True)]
